@@ -39,6 +39,11 @@ func RunSerial(rng *rand.Rand, nSteps int, obs Observer) (SerialStats, error) {
 	victim := -1
 	victimLeft := 0
 	afterAdvance := false
+	type heldPing struct {
+		ev     *pingEvent
+		seenAt int
+	}
+	var held []heldPing
 	entriesOf := func(s portalwire.VerifTableSnap) []portalwire.VerifNodeSnap {
 		var out []portalwire.VerifNodeSnap
 		for _, b := range s.Buckets {
@@ -53,7 +58,24 @@ func RunSerial(rng *rand.Rand, nSteps int, obs Observer) (SerialStats, error) {
 		if afterAdvance {
 			wait = 4 * time.Millisecond
 		}
-		if ev, ok := d.PendingPing(wait); ok {
+		// a newly started ping is sometimes held back for a few steps, so that other operations
+		// (deletes, re-additions, record updates) land while the liveness check is in flight
+		for {
+			ev, ok := d.PendingPing(wait)
+			if !ok {
+				break
+			}
+			held = append(held, heldPing{ev, n})
+			wait = 0
+		}
+		var ev *pingEvent
+		seenAt := 0
+		if len(held) > 0 && (n-held[0].seenAt >= 6 || len(held) >= 3 || rng.Intn(3) != 0) {
+			ev, seenAt = held[0].ev, held[0].seenAt
+			held = held[1:]
+		}
+		if ev != nil {
+			st.PingSeenAt = seenAt
 			st.Kind = PingReply
 			st.Pinged = ev.node.ID()
 			st.PingNode = ev.node
@@ -189,6 +211,9 @@ func RunSerial(rng *rand.Rand, nSteps int, obs Observer) (SerialStats, error) {
 			stats.Trace = append(stats.Trace, st.String())
 		}
 		obs.OnStep(st, before, after)
+	}
+	for _, h := range held { // release what is still held so that the table's goroutines can finish
+		h.ev.reply <- pingAnswer{0, errDead}
 	}
 	return stats, nil
 }
